@@ -16,6 +16,27 @@ func avoidFor(prop string) func(hist.Step, *hist.MRunner) string {
 	return func(s hist.Step, mr *hist.MRunner) string {
 		// Interpretation decisions (not findings): see DESIGN §6.
 		switch s.Op {
+		case "read", "write", "writestring":
+			if s.Slot >= 0 && s.Slot < hist.NSlots && mr.CursorOpen[s.Slot] {
+				return "interp:cursor-after-WriteAt-is-reference-dependent"
+			}
+		case "seek":
+			if s.Whence == 1 && s.Slot >= 0 && s.Slot < hist.NSlots && mr.CursorOpen[s.Slot] {
+				return "interp:cursor-after-WriteAt-is-reference-dependent"
+			}
+		case "readat":
+			if s.N == 0 && s.Off < 0 {
+				return "interp:empty-ReadAt-at-negative-offset"
+			}
+		case "writeat":
+			if s.Size == 0 && s.Off < 0 {
+				return "interp:empty-WriteAt-at-negative-offset"
+			}
+			if s.Slot >= 0 && s.Slot < hist.NSlots && mr.Slots[s.Slot] != nil && mr.Slots[s.Slot].Append {
+				return "interp:WriteAt-on-O_APPEND-handle"
+			}
+		}
+		switch s.Op {
 		case "remove", "removeall", "rename", "arch_delete", "arch_move":
 			// POSIX keeps an unlinked open file alive; STFS handles are path based.
 			if mr.HasOpenUnder(s.Path) || (s.Path2 != "" && mr.HasOpenUnder(s.Path2)) {
